@@ -4,7 +4,13 @@
    (any subset of calls failing, any way); `tbl cfg e k` is the kernel route for destination key k in Felix's
    table; `s_desired s` is the tracker's desired side; `winner cfg s k` is the conflict-resolution result over
    the per-class desired routes and the interface view; `kroute_is_ours` is the ownership policy applied to a
-   kernel route; `in_grace` is the route-cleanup grace period of a recently seen workload interface. *)
+   kernel route; `in_grace` is the route-cleanup grace period of a recently seen workload interface.
+   `plan_simple p` excludes one kind of fault from the theorems about Apply: a whole-table dump that yields part of the
+   routes, is then overtaken by SOMEBODY ELSE changing the kernel, and fails with EINTR (FEintrP).  With such a fault the
+   kernel changes in the middle of the Apply, so statements relating the kernel before and after the Apply do not apply
+   as written; that fault class is covered by the model/oracle correspondence run only (the model records the partial
+   dump in the tracker and clears seenKeys on retry).  All other faults (errors and EINTR on every netlink call, at any
+   call, in any combination) are included. *)
 From Coq Require Import List NArith Bool String Permutation.
 From Verif.C17 Require Import Model Spec Proofs ProofsAttempt ProofsWinner ProofsApply ProofsEvery ProofsSound ProofsFull.
 Import ListNotations.
@@ -69,6 +75,7 @@ Print Assumptions c17_desired_tracks_winner.
    history once the two fixes/C17 patches are applied (correspondence run on the patched tree; c17_fixed_model_witnesses). *)
 (* c17_converges holds at full strength: no condition on which attempt succeeded or what kind of resync it ran *)
 Theorem c17_converges : forall cfg p s e s' e',
+  plan_simple p = true ->
   NoDup (keys (e_routes e)) -> s_full s = true ->
   apply cfg p s e = (false, s', e') ->
   forall k d, lookup rkey_eqb (s_desired s') k = Some d -> tbl cfg e' k = Some d.
@@ -76,6 +83,7 @@ Proof. exact apply_converges_full. Qed.
 Print Assumptions c17_converges.
 
 Theorem c17_stale_removed : forall cfg p s e s' e',
+  plan_simple p = true ->
   NoDup (keys (e_routes e)) -> s_full s = true -> last_attempt_full cfg p s e = true ->
   apply cfg p s e = (false, s', e') ->
   forall k r, lookup rkey_eqb (s_desired s') k = None -> tbl cfg e' k = Some r ->
@@ -84,6 +92,7 @@ Proof. exact apply_stale_removed. Qed.
 Print Assumptions c17_stale_removed.
 
 Theorem c17_foreign_untouched : forall cfg p s e s' e',
+  plan_simple p = true ->
   NoDup (keys (e_routes e)) -> s_full s = true -> last_attempt_full cfg p s e = true ->
   apply cfg p s e = (false, s', e') ->
   forall kk r, lookup kkey_eqb (e_routes e) kk = Some r ->
@@ -96,6 +105,7 @@ Print Assumptions c17_foreign_untouched.
    reachable ones), any kernel, any failure plan: this is the "from any starting kernel state and across netlink
    failures" part; interface churn before the attempt is arbitrary because the state is arbitrary. *)
 Theorem c17_any_history_partial : forall cfg p w w',
+  plan_simple p = true ->
   NoDup (keys (e_routes (w_env w))) ->
   s_full (w_st w) = true ->
   attempt cfg p w = (false, w') ->
@@ -123,21 +133,21 @@ Print Assumptions c17_tracker_sound.
    any failure plan, any such history before it) every desired route is in the kernel exactly.  This is the half of
    convergence that does not need the full resync; it holds of the pinned code. *)
 Theorem c17_desired_present_after_any_successful_apply : forall cfg ops p s' e',
-  forallb quiet ops = true ->
+  forallb quiet ops = true -> plan_simple p = true ->
   apply cfg p (fst (run_st cfg ops (st0, env0))) (snd (run_st cfg ops (st0, env0))) = (false, s', e') ->
   forall k d, lookup rkey_eqb (s_desired s') k = Some d -> tbl cfg e' k = Some d.
 Proof. exact desired_present_after_any_successful_apply. Qed.
 Print Assumptions c17_desired_present_after_any_successful_apply.
 
 (* EVERY Apply, whatever its outcome, whatever fails, from any state: routes in other routing tables are untouched. *)
-Theorem c17_other_tables_untouched : forall cfg p s e err s' e', apply cfg p s e = (err, s', e') ->
+Theorem c17_other_tables_untouched : forall cfg p s e err s' e', plan_simple p = true -> apply cfg p s e = (err, s', e') ->
   forall kk, fst kk <> c_table cfg -> lookup kkey_eqb (e_routes e') kk = lookup kkey_eqb (e_routes e) kk.
 Proof. exact apply_other_tables_untouched. Qed.
 Print Assumptions c17_other_tables_untouched.
 
 (* the NoDup hypothesis above ("the kernel table is a finite map") holds of every kernel reachable by any history,
    including all Applies with all failure plans *)
-Theorem c17_reachable_kernel_is_a_map : forall cfg ops, NoDup (keys (e_routes (snd (run_st cfg ops (st0, env0))))).
+Theorem c17_reachable_kernel_is_a_map : forall cfg ops, plans_simple ops = true -> NoDup (keys (e_routes (snd (run_st cfg ops (st0, env0))))).
 Proof. exact reachable_kernel_is_a_map. Qed.
 Print Assumptions c17_reachable_kernel_is_a_map.
 
@@ -210,6 +220,7 @@ Example c17_example_hypotheses_satisfiable :
   let '(s, e) := run_st cfg_pinned ex_ops (st0, env0) in
   let p := [pl NRouteListAll 0 FEintr; pl NLinkList 0 FErr] in
   s_full s = true /\ last_attempt_full cfg_pinned p s e = true /\
+  plan_simple p = true /\
   (let '(err, s', e') := apply cfg_pinned p s e in
    err = false /\ tbl cfg_pinned e' (rk 0 0) = Some (mkr 1 253 0 3 false 0 11 0) /\ tbl cfg_pinned e' (rk 5 0) = None /\
    tbl cfg_pinned e' (rk 6 0) = Some (mkr 1 253 0 4 false 0 31 0) /\
@@ -238,3 +249,19 @@ Proof.
   split; [intro H; discriminate H|]. intros n Hn. rewrite recalc_n2i. cbn.
   unfold set. cbn. destruct (String.eqb n "eth0"); intro H; discriminate H.
 Qed.
+
+(* the fault class excluded by plan_simple, on the model: the programmed route is delivered by the whole-table dump, then
+   vanishes from the kernel, the dump fails with EINTR and is retried; seenKeys is cleared, so the sweep purges the
+   vanished route from the tracker and the same Apply programs it again.  (If seenKeys were not cleared the route would
+   stay believed-present and missing: that is what the oracle rejects on an implementation that does so.) *)
+Definition witness_vanish : list op :=
+  [ESetLink "cali1" (mkl 11 true true); OIface "cali1" 11 IfUp;
+   ORouteUpdate 0 "cali1" (rk 0 0) (mkt TLinkLocal 0 0 0 0); OApply []; OQueueResync;
+   OApply [pl NRouteListAll 0 (FEintrP [rk 0 0] [(kk 254 0 0, None)])]].
+
+Example c17_example_vanish_mid_dump :
+  let obs := run cfg_fixed witness_vanish (st0, env0) in
+  ok_history cfg_fixed witness_vanish obs = true /\
+  last obs (true, []) = (false, [kr 254 0 0 (mkr 1 253 0 3 false 0 11 0)]) /\
+  ok_history cfg_fixed witness_vanish [(false, [kr 254 0 0 (mkr 1 253 0 3 false 0 11 0)]); (false, [])] = false.
+Proof. vm_compute. repeat split; reflexivity. Qed.
